@@ -18,8 +18,8 @@ ASSUMPTIONS = ["caller contracts from the header comments: a pushed/chained item
                "queries whose name ends in 'p' rewrite COMPARISON_VAL's pointer->uintptr_t->pointer round trip into the equivalent char* arithmetic on an "
                "overlay copy of parsec_config_bottom.h (CBMC loses the target object through the integer cast: 3.5x cost); the others use the product's macro"]
 BOUNDS = {"quick": {"list length": "<=4 (basic operations, all front ends), <=3/4 push_sorted, 2+2 chain_sorted, <=4 sort", "ring length": "<=3", "priorities": "any int, ties included",
-                    "concurrent": "2 threads, 2 scenarios, 3 scheduling slots per thread"},
-          "thorough": {"list length": "<=4 (+ chain_sorted 4+3, sort <=5)", "ring length": "<=3", "priorities": "any int", "concurrent": "2 threads, 6 scenarios, 3 scheduling slots per thread"}}
+                    "concurrent": "2 threads, 4 scenarios (incl. chain_front vs push_front and chain_back vs push_back), 3 scheduling slots per thread"},
+          "thorough": {"list length": "<=4 (+ chain_sorted 4+3, sort <=5)", "ring length": "<=3", "priorities": "any int", "concurrent": "2 threads, 10 scenarios, 3 scheduling slots per thread (chain_sorted vs push_sorted: 2)"}}
 OPS = {"push_front": 1, "push_back": 2, "pop_front": 3, "pop_back": 4, "chain_front": 5, "chain_back": 6, "unchain": 7,
        "remove": 8, "add_before": 9, "add_after": 10, "contains": 11, "push_sorted": 12, "chain_sorted": 13, "sort": 14,
        "ring_push_sorted": 15, "ring_push": 16, "ring_merge": 17, "ring_chop": 18, "ring": 19, "is_empty": 20, "iter": 21}
@@ -124,7 +124,7 @@ def mutants(ctx):
 CLAIMED = True
 MANIFEST = {
  "engine": "cbmc-src",
- "text": "Bounded model checking of the real list.h / list_item.h / dequeue.h / fifo.h, one operation from every valid pre-state: the solver chooses the list (0..4 items out of 5 static objects, any naming), the priorities (any int, ties included), stale pointers of detached items, the argument ring (1..3 items) and the position; after ONE real operation the pointer structure is read back (forward links, back links, termination at the ghost) and compared position by position with a sequence model.  Covered: push/pop front/back, chain front/back, unchain, remove, add_before/after, contains, is_empty, the iterator macros, every parsec_list_* locked variant, every parsec_dequeue_* and parsec_fifo_* wrapper (sequential effect, lock released, try_pop with the lock held elsewhere returns NULL and changes nothing), push_sorted and chain_sorted (list stays non-increasing, the new element goes AFTER existing elements of equal priority, ring order kept among equals), ring_push_sorted (documented position, returned head is the maximum), ring push/merge/chop/close, and the mergesort behind parsec_list_sort (permutation, monotone, links intact).  Concurrent half (IR-level sequentialization, every SC interleaving with <= 3 scheduling slots per thread): two threads running locked list / dequeue / fifo operations (push_back vs two pop_front, two pop_front racing for one item -- the unlocked emptiness pre-check followed by a locked pop of the emptied list returns NULL --, two push_sorted with tied priorities, push_front+pop_back vs pop_front, fifo push vs try_pop+pop, unchain vs chain_back) leave a well-formed list, conserve every item, release the lock and return results consistent with a sequential order.",
+ "text": "Bounded model checking of the real list.h / list_item.h / dequeue.h / fifo.h, one operation from every valid pre-state: the solver chooses the list (0..4 items out of 5 static objects, any naming), the priorities (any int, ties included), stale pointers of detached items, the argument ring (1..3 items) and the position; after ONE real operation the pointer structure is read back (forward links, back links, termination at the ghost) and compared position by position with a sequence model.  Covered: push/pop front/back, chain front/back, unchain, remove, add_before/after, contains, is_empty, the iterator macros, every parsec_list_* locked variant, every parsec_dequeue_* and parsec_fifo_* wrapper (sequential effect, lock released, try_pop with the lock held elsewhere returns NULL and changes nothing), push_sorted and chain_sorted (list stays non-increasing, the new element goes AFTER existing elements of equal priority, ring order kept among equals), ring_push_sorted (documented position, returned head is the maximum), ring push/merge/chop/close, and the mergesort behind parsec_list_sort (permutation, monotone, links intact).  Concurrent half (IR-level sequentialization, every SC interleaving with <= 3 scheduling slots per thread): two threads running locked list / dequeue / fifo operations (push_back vs two pop_front, two pop_front racing for one item -- the unlocked emptiness pre-check followed by a locked pop of the emptied list returns NULL --, two push_sorted with tied priorities, push_front+pop_back vs pop_front, fifo push vs try_pop+pop, unchain vs chain_back, and insertions racing at the same end: chain_front vs push_front, chain_back vs push_back, chain_front vs chain_front, chain_sorted vs push_sorted -- there an independent backward traversal must be the exact reverse of the forward one, every old and inserted item present exactly once in both, ring elements contiguous and in order) leave a well-formed list, conserve every item, release the lock and return results consistent with a sequential order.",
  "note": "Concurrency: two threads, the listed scenarios, SC memory model, bounded context switches.  parsec_list_sort orders by NON-DECREASING value, the reverse of what push_sorted maintains; asserted as implemented and recorded as an observation.  Expensive queries use canonical item naming and an equivalent rewrite of COMPARISON_VAL (listed per query).",
  "technique": "CBMC bounded symbolic execution of the real headers from symbolic valid pre-states (inductive step per operation) + SAT (cadical), exact comparison with a sequence model; IR-level sequentialization (ll2c.py) + CBMC for the two-thread scenarios",
 }
